@@ -120,7 +120,7 @@ func (c *Ctx) cycleEntries() map[*ssa.Function]string {
 }
 
 func c09(c *Ctx) {
-	c.R.Explanation = "C09: decided over the VTA call graph of /repo. Entries = every FanController.UpdateFanSpeed implementation, the actors and interrupt functions of the per-fan run.Group, the sensor-monitor Run, prometheus Collect methods and REST handlers. R-nocrash = no crash site (builtin panic, pterm.Fatal/ui.Fatal, os.Exit/log.Fatal and repository wrappers that never return, comma-less type assertion on an error) lies in an *error context* reachable from those entries; error context = a block reachable from an edge establishing err != nil for an error-typed value, or any function called (transitively) from such a block. Crash sites outside error contexts are listed as not-on-an-I/O-error-path (configuration-dependent ones belong to C11). R-errpair = in the functions reachable from those entries, the value result of a fallible library call (T, error) with T a pointer or interface is dereferenced / has a method invoked only where the error of that same call is established nil; the one partial test of the code base, !os.IsNotExist(err) after os.Stat, is accepted only when the path handed to Stat is the result of a successful filepath.EvalSymlinks (which already failed for every path Stat would fail on; the race between the two calls is assumed away). R-propagate = every SpeedCurve.Evaluate implementation returns a non-nil error on every path from the error edge of a fallible call. R-contain = from the error edge of UpdateFanSpeed in the control goroutine every return is the nil constant and no crash site is reachable. R-actor-nil = every return of every actor of the per-fan run.Group and of the sensor monitor is the nil constant (a non-nil actor error reaches ui.Fatal in the interrupt function and panic(err) in the daemon's actor wrapper). R-restore = when the control goroutine gives up on a fan (cycle error, cancellation, failed initialisation) every return is in state restored of the C03 typestate (original mode confirmed or SetPwm(255)); shared with C03 R-exit/R-init. Not decided: usefulness of continued regulation; library internals (echo, prometheus) are summarised as non-crashing."
+	c.R.Explanation = "C09: decided over the VTA call graph of /repo. Entries = every FanController.UpdateFanSpeed implementation, the actors and interrupt functions of the per-fan run.Group, the sensor-monitor Run, prometheus Collect methods and REST handlers. R-nocrash = no crash site (builtin panic, pterm.Fatal/ui.Fatal, os.Exit/log.Fatal and repository wrappers that never return, comma-less type assertion on an error) lies in an *error context* reachable from those entries; error context = a block reachable from an edge establishing err != nil for an error-typed value, or any function called (transitively) from such a block. Crash sites outside error contexts are listed as not-on-an-I/O-error-path (configuration-dependent ones belong to C11). R-errpair = in the functions reachable from those entries, the value result of a fallible library call (T, error) with T a pointer or interface is dereferenced / has a method invoked only where the error of that same call is established nil; the one partial test of the code base, !os.IsNotExist(err) after os.Stat, is accepted only when the path handed to Stat is the result of a successful filepath.EvalSymlinks (which already failed for every path Stat would fail on; the race between the two calls is assumed away). R-propagate = every SpeedCurve.Evaluate implementation returns a non-nil error on every path from the error edge of a fallible call. R-contain = from the error edge of UpdateFanSpeed in the control goroutine every return is the nil constant and no crash site is reachable. R-actor-nil = every return of every actor of the per-fan run.Group and of the sensor monitor is the nil constant (a non-nil actor error reaches ui.Fatal in the interrupt function and panic(err) in the daemon's actor wrapper). R-restore = when the control goroutine gives up on a fan (cycle error, cancellation, failed initialisation) every return is in state restored of the C03 typestate (original mode confirmed or SetPwm(255)); shared with C03 R-exit/R-init. R-iodata = in the functions reachable from those entries every index, slice expression and integer division whose operand derives from the result of a standard-library call (text read from a device file, the output of a command, the fields of a split line: data the environment controls, not the validated configuration, which is C11's) is proved in bounds by a dominating length guard, a range loop or the range analysis. Not decided: usefulness of continued regulation; library internals (echo, prometheus) are summarised as non-crashing."
 	c.R.Assumptions = append(c.R.Assumptions,
 		"pterm.Fatal printers panic (Fatal flag true) unless derived with WithFatal(false); os.Exit/log.Fatal never return",
 		"library code (echo, prometheus, bbolt, os/exec) does not panic on the inputs it is given")
@@ -193,6 +193,7 @@ func c09(c *Ctx) {
 	c.R.Ok("R-nocrash", "summary", "(call graph)", "-", sprintf("%d functions reachable from %d entries; %d crash sites inspected, %d in error context", len(reach), len(roots), nsites, nbad))
 	c.R.Stats["crash_sites_reachable"] = nsites
 	c.ruleErrPair(reach)
+	c.ruleIOBounds("R-iodata", reach, 1)
 
 	// ---- R-propagate ------------------------------------------------------------
 	for _, fn := range c.ImplMethods(PkgCurves, "SpeedCurve", "Evaluate") {
@@ -446,4 +447,74 @@ func (c *Ctx) ruleErrPair(reach map[*ssa.Function]bool) {
 	}
 	c.R.Stats["error_paired_uses"] = n
 	c.R.Ok("R-errpair", "summary", "(call tree)", "-", sprintf("%d use(s) of value results of fallible library calls inspected", n))
+}
+
+// ruleIOBounds: in scope, every index / slice / integer-division whose operand derives from the result of a
+// standard-library call (text read from a device file, the output of a command, the fields of a split line:
+// data the environment controls, not the validated configuration) is proved in bounds by a dominating
+// length guard, a range loop or the range analysis. Configuration-derived sites are C11's (validator table).
+func (c *Ctx) ruleIOBounds(rule string, scope map[*ssa.Function]bool, minSites int) {
+	tb := ir.NewTB(c.P.IsRepoFunc, c.P.FuncKey)
+	sites, discharged := c.partialSites(scope, tb)
+	stdlibSource := func(v ssa.Value) string {
+		name := ""
+		tb.Of(v, nil).Find(func(x *ir.Term) bool {
+			if !strings.HasPrefix(x.Op, "call:") {
+				return false
+			}
+			call, ok := x.Val.(*ssa.Call)
+			if !ok {
+				return false
+			}
+			cal := ir.Callee(call).Static
+			if cal == nil || c.P.IsRepoFunc(cal) {
+				return false
+			}
+			pk := load_FuncPkgPath(cal)
+			first := pk
+			if k := strings.Index(pk, "/"); k >= 0 {
+				first = pk[:k]
+			}
+			if strings.Contains(first, ".") {
+				return false // third-party module (registries such as concurrent-map): configuration objects
+			}
+			name = ir.CallName(call)
+			return true
+		})
+		return name
+	}
+	n := 0
+	seen := map[string]bool{}
+	for _, s := range sites {
+		var operand ssa.Value
+		switch x := s.ins.(type) {
+		case *ssa.IndexAddr:
+			operand = x.X
+		case *ssa.Index:
+			operand = x.X
+		case *ssa.Lookup:
+			operand = x.X
+		case *ssa.Slice:
+			operand = x.X
+		case *ssa.BinOp:
+			operand = x.Y
+		default:
+			continue
+		}
+		src := stdlibSource(operand)
+		if src == "" {
+			continue
+		}
+		n++
+		key := c.FK(s.fn) + "|" + s.kind + "|" + src
+		if seen[key] {
+			continue
+		}
+		seen[key] = true
+		c.R.Bad(rule, key, c.FK(s.fn), c.P.Pos(s.ins.Pos()), s.kind+" on data that comes from "+src+" ("+s.detail+"): input the environment controls (file contents, command output) can make this panic on a path reachable from the per-cycle entries")
+	}
+	c.R.Ok(rule, "summary", "(call graph)", "-", sprintf("%d functions: %d index/slice/division/deref sites discharged locally, %d undischarged sites on standard-library (environment) data", len(scope), discharged, n))
+	if discharged < minSites {
+		c.R.Undecided(rule, "discharged", "(call graph)", "-", sprintf("only %d partial operations seen in scope (expected at least %d): scope unresolved", discharged, minSites))
+	}
 }
